@@ -926,6 +926,13 @@ pub proof fn lemma_rets_same_entries(b1: Seq<u8>, r1: Seq<RetainedPacket>, b2: S
     }
 }
 
+pub proof fn lemma_same_entries_sig(b1: Seq<u8>, r1: Seq<RetainedPacket>, b2: Seq<u8>, r2: Seq<RetainedPacket>)
+    requires same_entries(b1, r1, b2, r2)
+    ensures ret_sig(r1) == ret_sig(r2)
+{
+    assert(ret_sig(r1) =~= ret_sig(r2));
+}
+
 pub open spec fn prefix_sum(r: Seq<RetainedPacket>, n: int) -> int decreases n {
     if n <= 0 { 0 } else { prefix_sum(r, n - 1) + r[n - 1].len }
 }
@@ -1418,6 +1425,7 @@ fn compact(&mut self)
         bv(*final(self)).len() == bv(*old(self)).len() && same_queues(*final(self), *old(self)),
         rets(bv(*final(self)), final(self).retained@) =~= rets(bv(*old(self)), old(self).retained@),
         compacted(*final(self)),
+        ret_sig(final(self).retained@) == ret_sig(old(self).retained@),
         wf(*final(self)),
 { proof { reveal(wfs); } 
         let previous_used = self.used;
@@ -1492,6 +1500,7 @@ fn scratch_space(&mut self) -> (r: &mut [u8])
         r@.len() == bv(*old(self)).len() - total_len(*old(self)),
         final(self).retained@.len() == old(self).retained@.len() && same_queues(*final(self), *old(self)) && bv(*final(self)).len() == bv(*old(self)).len(),
         same_entries(bv(*final(self)), final(self).retained@, bv(*old(self)), old(self).retained@),
+        ret_sig(final(self).retained@) == ret_sig(old(self).retained@),
         wf(*final(self)) && compacted(*final(self)),
 { proof { reveal(wfs); } 
         self.compact();
@@ -2065,6 +2074,7 @@ where
     ensures
         same_entries(bv(*final(self)), final(self).retained@, bv(*old(self)), old(self).retained@),
         same_queues(*final(self), *old(self)) && bv(*final(self)).len() == bv(*old(self)).len(),
+        ret_sig(final(self).retained@) == ret_sig(old(self).retained@),
         wf(*final(self)) && compacted(*final(self)),
         r matches Ok((off, len)) ==> final(self).used <= off && off + len <= bv(*final(self)).len() && len >= 2
             && bv(*final(self)).subrange(off as int, off + len) == packet.enc() && framed(packet.enc()),
@@ -2090,6 +2100,7 @@ fn encode_publish<P: ToPayload, E>(
     ensures
         same_entries(bv(*final(self)), final(self).retained@, bv(*old(self)), old(self).retained@),
         same_queues(*final(self), *old(self)) && bv(*final(self)).len() == bv(*old(self)).len(),
+        ret_sig(final(self).retained@) == ret_sig(old(self).retained@),
         wf(*final(self)) && compacted(*final(self)),
         r matches Ok((off, len)) ==> final(self).used <= off && off + len <= bv(*final(self)).len() && len >= 2
             && bv(*final(self)).subrange(off as int, off + len) == enc_publish(*header, payload) && framed(enc_publish(*header, payload)),
@@ -2340,9 +2351,32 @@ pub open spec fn next_id(id: u16) -> u16 { if id == 65535 { 1 } else { (id + 1) 
 pub open spec fn ids_seq(r: Seq<RetainedPacket>, l: Seq<PendingRelease>) -> Seq<u16> {
     Seq::new(r.len(), |i: int| r[i].packet_id) + Seq::new(l.len(), |i: int| l[i].packet_id)
 }
+/// in-flight signature of the two lists: (id, length) of retained packets, (id, reason) of pending PUBRELs
+pub open spec fn ret_sig(r: Seq<RetainedPacket>) -> Seq<(u16, usize)> { Seq::new(r.len(), |i: int| (r[i].packet_id, r[i].len)) }
+pub open spec fn rel_sig(l: Seq<PendingRelease>) -> Seq<(u16, ReasonCode)> { Seq::new(l.len(), |i: int| (l[i].packet_id, l[i].reason)) }
+pub open spec fn sig_ids(rs: Seq<(u16, usize)>, ls: Seq<(u16, ReasonCode)>) -> Seq<u16> {
+    Seq::new(rs.len(), |i: int| rs[i].0) + Seq::new(ls.len(), |i: int| ls[i].0)
+}
+/// W6 as a predicate of the in-flight signature only (so that anything that keeps the signature keeps W6)
 #[verifier::opaque]
-pub open spec fn w6s(r: Seq<RetainedPacket>, l: Seq<PendingRelease>) -> bool { ids_seq(r, l).no_duplicates() }
+pub open spec fn w6g(rs: Seq<(u16, usize)>, ls: Seq<(u16, ReasonCode)>) -> bool { sig_ids(rs, ls).no_duplicates() }
+pub open spec fn w6s(r: Seq<RetainedPacket>, l: Seq<PendingRelease>) -> bool { w6g(ret_sig(r), rel_sig(l)) }
 pub open spec fn w6(o: Outbound) -> bool { w6s(o.retained@, o.pending_release@) }
+pub proof fn lemma_w6s_unfold(r: Seq<RetainedPacket>, l: Seq<PendingRelease>)
+    ensures w6s(r, l) == ids_seq(r, l).no_duplicates()
+{
+    reveal(w6g);
+    assert(sig_ids(ret_sig(r), rel_sig(l)) =~= ids_seq(r, l));
+}
+pub proof fn lemma_w6_empty()
+    ensures forall|r: Seq<RetainedPacket>, l: Seq<PendingRelease>| r.len() == 0 && l.len() == 0 ==> #[trigger] w6s(r, l)
+{
+    assert forall|r: Seq<RetainedPacket>, l: Seq<PendingRelease>| r.len() == 0 && l.len() == 0 implies #[trigger] w6s(r, l) by {
+        lemma_w6s_unfold(r, l);
+        assert(ids_seq(r, l) =~= Seq::<u16>::empty());
+    }
+}
+pub proof fn lemma_w6_unfold(o: Outbound) ensures w6(o) == ids_of(o).no_duplicates() { lemma_w6s_unfold(o.retained@, o.pending_release@); }
 
 pub open spec fn sd_inv(d: SessionData) -> bool {
     wf(d.outbound) && d.packet_id.v != 0 && d.pending_server_packet_ids@.len() <= MAX_INBOUND_QOS2
@@ -2438,7 +2472,10 @@ fn new(outbound: &'a mut [u8]) -> (r: Self)
         r.packet_id.v == 1 && r.generation == 0 && !r.session_present && r.pending_server_packet_ids@.len() == 0
             && r.outbound.retained@.len() == 0 && r.outbound.pending_control@.len() == 0 && r.outbound.pending_release@.len() == 0
             && r.outbound.used == 0 && bv(r.outbound) == old(outbound)@ && sd_inv(r),
-{ proof { reveal(w6s); } 
+{
+        proof { lemma_w6_empty(); }
+
+
         Self {
             packet_id: NonZeroU16::new(1).unwrap(),
             generation: 0,
@@ -2468,13 +2505,19 @@ fn reset(&mut self)
             && final(self).outbound.pending_release@.len() == 0 && final(self).outbound.used == 0
             && bv(final(self).outbound) == bv(old(self).outbound),
         sd_inv(*final(self)),
-{ proof { reveal(w6s); } 
+{
         self.session_present = false;
         self.generation = self.generation.wrapping_add(1);
         self.packet_id = NonZeroU16::new(1).unwrap();
         self.outbound.clear();
         self.pending_server_packet_ids.clear();
-    }
+    
+        proof {
+            lemma_w6s_unfold(self.outbound.retained@, self.outbound.pending_release@);
+            assert(ids_seq(self.outbound.retained@, self.outbound.pending_release@) =~= Seq::<u16>::empty());
+        }
+
+}
 
 fn generation(&self) -> (r: u32)
     ensures
@@ -2634,7 +2677,7 @@ pub proof fn lemma_w6_acked(o1: Outbound, o0: Outbound, id: u16)
     requires w6(o0), acked(o1, o0, id), has_ret(o0.retained@, id),
     ensures w6(o1), !in_use(o1, id)
 {
-    reveal(w6s);
+    lemma_w6_unfold(o0); lemma_w6_unfold(o1);
     let k = first_ret(o0.retained@, id);
     lemma_first_ret_bounds(o0.retained@, id);
     let r0 = o0.retained@; let r1 = o1.retained@;
@@ -2698,7 +2741,7 @@ pub proof fn lemma_w6s_push(r: Seq<RetainedPacket>, l: Seq<PendingRelease>, e: P
     requires w6s(r, l), !has_ret(r, e.packet_id), !has_rel(l, e.packet_id),
     ensures w6s(r, l.push(e))
 {
-    reveal(w6s);
+    lemma_w6s_unfold(r, l); lemma_w6s_unfold(r, l.push(e));
     let a1 = ids_seq(r, l); let a2 = ids_seq(r, l.push(e));
     let n = a1.len() as int;
     assert(a2.len() == n + 1);
@@ -2718,7 +2761,7 @@ pub proof fn lemma_w6_remove_release(o1: Outbound, o0: Outbound, k: int)
     requires w6(o0), 0 <= k < o0.pending_release@.len(), o1.pending_release@ =~= o0.pending_release@.remove(k), o1.retained@ == o0.retained@,
     ensures w6(o1)
 {
-    reveal(w6s);
+    lemma_w6_unfold(o0); lemma_w6_unfold(o1);
     let a0 = ids_of(o0); let a1 = ids_of(o1);
     let n = o0.retained@.len() as int;
     assert forall|i: int, j: int| 0 <= i < a1.len() && 0 <= j < a1.len() && i != j implies a1[i] != a1[j] by {
@@ -2731,7 +2774,7 @@ pub proof fn lemma_w6_same_lists(o1: Outbound, o0: Outbound)
     requires w6(o0), o1.retained@ == o0.retained@, o1.pending_release@ == o0.pending_release@,
     ensures w6(o1)
 {
-    reveal(w6s);
+    lemma_w6_unfold(o0); lemma_w6_unfold(o1);
     assert(ids_of(o1) =~= ids_of(o0));
 }
 
@@ -3638,7 +3681,7 @@ pub proof fn lemma_armed_w6(o1: Outbound, o0: Outbound)
     requires armed(o1, o0), w6(o0)
     ensures w6(o1)
 {
-    reveal(w6s);
+    lemma_w6_unfold(o0); lemma_w6_unfold(o1);
     assert(ids_of(o1) =~= ids_of(o0)) by {
         assert forall|i: int| 0 <= i < ids_of(o0).len() implies ids_of(o1)[i] == ids_of(o0)[i] by {
             if i < o0.retained@.len() { assert(o1.retained@[i] == fresh_ret(o0.retained@[i])); }
@@ -3693,7 +3736,7 @@ pub proof fn lemma_written_w6(o1: Outbound, o0: Outbound, p: FlushedPacket, writ
     requires written_upd(o1, o0, p, written, len), w6(o0), flushed_tracked(o0, p)
     ensures w6(o1)
 {
-    reveal(w6s);
+    lemma_w6_unfold(o0); lemma_w6_unfold(o1);
     lemma_first_ret_bounds(o0.retained@, match p { FlushedPacket::Retained(id) => id, _ => 0 });
     lemma_first_rel_bounds(o0.pending_release@, match p { FlushedPacket::Release(id) => id, _ => 0 });
     assert(ids_of(o1) =~= ids_of(o0));
@@ -3705,8 +3748,6 @@ pub open spec fn no_in_progress(o: Outbound) -> bool { step_for(o, true) is None
 /// retained and release lists carry the same packets (ids, lengths, reasons, order) — only send
 /// states, arena offsets and the DUP bit may differ.  Stated as equality of derived sequences so that
 /// it is transitive for free.
-pub open spec fn ret_sig(r: Seq<RetainedPacket>) -> Seq<(u16, usize)> { Seq::new(r.len(), |i: int| (r[i].packet_id, r[i].len)) }
-pub open spec fn rel_sig(l: Seq<PendingRelease>) -> Seq<(u16, ReasonCode)> { Seq::new(l.len(), |i: int| (l[i].packet_id, l[i].reason)) }
 pub open spec fn same_inflight(o1: Outbound, o0: Outbound) -> bool {
     ret_sig(o1.retained@) == ret_sig(o0.retained@) && rel_sig(o1.pending_release@) == rel_sig(o0.pending_release@)
 }
@@ -3768,7 +3809,7 @@ pub proof fn lemma_flushed_w6(o1: Outbound, o0: Outbound, p: FlushedPacket)
     requires flushed_upd(o1, o0, p), w6(o0), flushed_tracked(o0, p)
     ensures w6(o1)
 {
-    reveal(w6s);
+    lemma_w6_unfold(o0); lemma_w6_unfold(o1);
     lemma_first_ret_bounds(o0.retained@, match p { FlushedPacket::Retained(id) => id, _ => 0 });
     lemma_first_rel_bounds(o0.pending_release@, match p { FlushedPacket::Release(id) => id, _ => 0 });
     assert(ids_of(o1) =~= ids_of(o0));
@@ -3821,7 +3862,7 @@ pub proof fn lemma_step_tracked(o: Outbound, s: OutboundStep)
         s matches OutboundStep::Control(c) ==> state_ok(c.state, ctl_len(c.action)),
         bv(o).len() <= usize::MAX,
 {
-    reveal(wfs); reveal(w6s);
+    reveal(wfs); lemma_w6_unfold(o);
     lemma_idx_bounds(o, true); lemma_idx_bounds(o, false);
     let ip = step_for(o, true) is Some;
     match s {
@@ -3998,6 +4039,7 @@ fn handle_disconnect(&mut self)
             && rbuf(cs(*final(self)).packet_reader) == rbuf(cs(*old(self)).packet_reader),
         cs(*final(self)).runtime.send_quota == cs(*old(self)).runtime.send_quota && cs(*final(self)).runtime.max_send_quota == cs(*old(self)).runtime.max_send_quota
             && cs(*final(self)).runtime.maximum_packet_size == cs(*old(self)).runtime.maximum_packet_size
+            && cs(*final(self)).runtime.max_qos == cs(*old(self)).runtime.max_qos
             && cs(*final(self)).runtime.keepalive_interval == cs(*old(self)).runtime.keepalive_interval
             && sd_frame(cs(*final(self)).data, cs(*old(self)).data)
             && cs(*final(self)).data.pending_server_packet_ids@ == cs(*old(self)).data.pending_server_packet_ids@,
@@ -4101,6 +4143,10 @@ async fn flush_current(
         sd_frame(cs(*final(self)).data, cs(*old(self)).data)
             && cs(*final(self)).data.pending_server_packet_ids@ == cs(*old(self)).data.pending_server_packet_ids@
             && final(self).event == old(self).event,
+        cs(*final(self)).runtime.maximum_packet_size == cs(*old(self)).runtime.maximum_packet_size
+            && cs(*final(self)).runtime.max_send_quota == cs(*old(self)).runtime.max_send_quota
+            && cs(*final(self)).runtime.max_qos == cs(*old(self)).runtime.max_qos
+            && cs(*final(self)).runtime.keepalive_interval == cs(*old(self)).runtime.keepalive_interval,
         conn_inv(*final(self)),
 {
         if !self.live {
@@ -4156,6 +4202,10 @@ async fn perform_outbound_step(
             && cs(*final(self)).data.pending_server_packet_ids@ == cs(*old(self)).data.pending_server_packet_ids@
             && final(self).event == old(self).event && final(self).io.inbound@ == old(self).io.inbound@,
         same_inflight(cs(*final(self)).data.outbound, cs(*old(self)).data.outbound) && cs(*final(self)).runtime.send_quota == cs(*old(self)).runtime.send_quota,
+        cs(*final(self)).runtime.maximum_packet_size == cs(*old(self)).runtime.maximum_packet_size
+            && cs(*final(self)).runtime.max_send_quota == cs(*old(self)).runtime.max_send_quota
+            && cs(*final(self)).runtime.max_qos == cs(*old(self)).runtime.max_qos
+            && cs(*final(self)).runtime.keepalive_interval == cs(*old(self)).runtime.keepalive_interval,
         conn_inv(*final(self)),
 {
         proof { lemma_step_tracked(cs(*self).data.outbound, step); }
@@ -4500,12 +4550,17 @@ async fn flush_outbound(&mut self) -> (r: Result<(), Error<IoErr>>)
         r is Ok ==> next_step_spec(cs(*final(self)).data.outbound) is None && final(self).live == old(self).live,
         r matches Err(e) ==> (e is Transport || e is Disconnected) ==> !final(self).live,
         r matches Err(e) ==> (e is Transport || e is Disconnected || e is WriteZero || e is Resource),
+        r matches Err(e) ==> (e is Resource || e is WriteZero) ==> final(self).live == old(self).live,
         r matches Err(e) ==> e is Disconnected ==> !old(self).live,
         sd_frame(cs(*final(self)).data, cs(*old(self)).data)
             && cs(*final(self)).data.pending_server_packet_ids@ == cs(*old(self)).data.pending_server_packet_ids@
             && final(self).event == old(self).event && final(self).io.inbound@ == old(self).io.inbound@
-            && reader_same(cs(*final(self)).packet_reader, cs(*old(self)).packet_reader) || !final(self).live,
+            && (reader_same(cs(*final(self)).packet_reader, cs(*old(self)).packet_reader) || !final(self).live),
         same_inflight(cs(*final(self)).data.outbound, cs(*old(self)).data.outbound) && cs(*final(self)).runtime.send_quota == cs(*old(self)).runtime.send_quota,
+        cs(*final(self)).runtime.maximum_packet_size == cs(*old(self)).runtime.maximum_packet_size
+            && cs(*final(self)).runtime.max_send_quota == cs(*old(self)).runtime.max_send_quota
+            && cs(*final(self)).runtime.max_qos == cs(*old(self)).runtime.max_qos
+            && cs(*final(self)).runtime.keepalive_interval == cs(*old(self)).runtime.keepalive_interval,
         conn_inv(*final(self)),
 {
         loop 
@@ -4520,6 +4575,10 @@ async fn flush_outbound(&mut self) -> (r: Result<(), Error<IoErr>>)
                 reader_same(cs(*self).packet_reader, cs(*old(self)).packet_reader),
                 same_inflight(cs(*self).data.outbound, cs(*old(self)).data.outbound),
                 cs(*self).runtime.send_quota == cs(*old(self)).runtime.send_quota,
+                cs(*self).runtime.maximum_packet_size == cs(*old(self)).runtime.maximum_packet_size
+                    && cs(*self).runtime.max_send_quota == cs(*old(self)).runtime.max_send_quota
+                    && cs(*self).runtime.max_qos == cs(*old(self)).runtime.max_qos
+                    && cs(*self).runtime.keepalive_interval == cs(*old(self)).runtime.keepalive_interval,
 {
             (match self.maybe_queue_pingreq(Instant::now()) { Ok(__v) => __v, Err(__e) => return Err(From::from(__e)) });
             let Some(step) = self.session.data.outbound.next_step() else {
@@ -4988,6 +5047,97 @@ where
     Ok(())
 }
 
+/// SessionData frame that allows the packet-id cursor to move
+pub open spec fn sd_frame_gen(a: SessionData, b: SessionData) -> bool {
+    a.generation == b.generation && a.session_present == b.session_present
+}
+/// membership, the position of the first match and its length are functions of the in-flight signature
+pub proof fn lemma_sig_props(o1: Outbound, o0: Outbound, id: u16)
+    requires same_inflight(o1, o0)
+    ensures has_ret(o1.retained@, id) == has_ret(o0.retained@, id), has_rel(o1.pending_release@, id) == has_rel(o0.pending_release@, id),
+        in_use(o1, id) == in_use(o0, id),
+        first_ret(o1.retained@, id) == first_ret(o0.retained@, id),
+        has_ret(o0.retained@, id) ==> o1.retained@[first_ret(o1.retained@, id)].len == o0.retained@[first_ret(o0.retained@, id)].len,
+{
+    let r1 = o1.retained@; let r0 = o0.retained@; let l1 = o1.pending_release@; let l0 = o0.pending_release@;
+    assert(r1.len() == ret_sig(r1).len() && r0.len() == ret_sig(r0).len());
+    assert(l1.len() == rel_sig(l1).len() && l0.len() == rel_sig(l0).len());
+    assert forall|i: int| 0 <= i < r0.len() implies (#[trigger] r1[i]).packet_id == r0[i].packet_id && r1[i].len == r0[i].len by {
+        assert(ret_sig(r1)[i] == ret_sig(r0)[i]);
+    }
+    assert forall|i: int| 0 <= i < l0.len() implies (#[trigger] l1[i]).packet_id == l0[i].packet_id by {
+        assert(rel_sig(l1)[i] == rel_sig(l0)[i]);
+    }
+    if has_ret(r1, id) { let i = choose|i: int| 0 <= i < r1.len() && (#[trigger] r1[i]).packet_id == id; assert(r0[i].packet_id == id); }
+    if has_ret(r0, id) { let i = choose|i: int| 0 <= i < r0.len() && (#[trigger] r0[i]).packet_id == id; assert(r1[i].packet_id == id); }
+    if has_rel(l1, id) { let i = choose|i: int| 0 <= i < l1.len() && (#[trigger] l1[i]).packet_id == id; assert(l0[i].packet_id == id); }
+    if has_rel(l0, id) { let i = choose|i: int| 0 <= i < l0.len() && (#[trigger] l0[i]).packet_id == id; assert(l1[i].packet_id == id); }
+    lemma_first_ret_bounds(r0, id); lemma_first_ret_bounds(r1, id);
+    if has_ret(r0, id) {
+        let k = first_ret(r0, id);
+        assert(r1[k].packet_id == id);
+        assert forall|j: int| 0 <= j < k implies (#[trigger] r1[j]).packet_id != id by { lemma_first_ret_min(r0, id, j); }
+        lemma_first_ret(r1, id, k);
+    } else {
+        lemma_first_ret_none(r0, id); lemma_first_ret_none(r1, id);
+    }
+}
+
+/// compaction (same_entries) keeps the in-flight signature
+pub proof fn lemma_inflight_entries(o1: Outbound, o0: Outbound)
+    requires same_entries(bv(o1), o1.retained@, bv(o0), o0.retained@), o1.pending_release@ == o0.pending_release@,
+    ensures same_inflight(o1, o0), w6(o0) ==> w6(o1),
+        forall|id: u16| has_ret(o1.retained@, id) == has_ret(o0.retained@, id),
+{
+    lemma_w6_unfold(o0); lemma_w6_unfold(o1);
+    assert(ret_sig(o1.retained@) =~= ret_sig(o0.retained@));
+    assert(ids_of(o1) =~= ids_of(o0));
+    assert forall|id: u16| has_ret(o1.retained@, id) == has_ret(o0.retained@, id) by {
+        if has_ret(o1.retained@, id) { let i = choose|i: int| 0 <= i < o1.retained@.len() && (#[trigger] o1.retained@[i]).packet_id == id; assert(o0.retained@[i].packet_id == id); }
+        if has_ret(o0.retained@, id) { let i = choose|i: int| 0 <= i < o0.retained@.len() && (#[trigger] o0.retained@[i]).packet_id == id; assert(o1.retained@[i].packet_id == id); }
+    }
+}
+/// retaining a packet under an unused id keeps W6 and makes the id pending
+pub proof fn lemma_retained_pushed(o4: Outbound, o3: Outbound, o2: Outbound, id: u16, offset: usize, len: usize)
+    requires
+        o4.retained@ == o3.retained@.push(RetainedPacket { packet_id: id, offset, len, state: SendState::Write { written: 0 } }),
+        o4.pending_release@ == o3.pending_release@,
+        same_entries(bv(o3), o3.retained@, bv(o2), o2.retained@), o3.pending_release@ == o2.pending_release@,
+        w6(o2), !in_use(o2, id),
+    ensures w6(o4), has_ret(o4.retained@, id),
+{
+    lemma_w6_unfold(o4); lemma_w6_unfold(o3); lemma_w6_unfold(o2);
+    lemma_inflight_entries(o3, o2);
+    let a3 = ids_of(o3); let a4 = ids_of(o4);
+    let n = o3.retained@.len() as int;
+    assert(o4.retained@[n].packet_id == id);
+    assert forall|i: int, j: int| 0 <= i < a4.len() && 0 <= j < a4.len() && i != j implies a4[i] != a4[j] by {
+        let ii = if i < n { i } else if i == n { -1 } else { i - 1 };
+        let jj = if j < n { j } else if j == n { -1 } else { j - 1 };
+        if ii >= 0 { assert(a4[i] == a3[ii]); }
+        if jj >= 0 { assert(a4[j] == a3[jj]); }
+        if ii < 0 || jj < 0 {
+            let m = if ii < 0 { jj } else { ii };
+            // a3[m] is an id in use in o3, hence in o2; id is not
+            if m < n { assert(o3.retained@[m].packet_id == a3[m]); assert(has_ret(o3.retained@, a3[m])); }
+            else { assert(o3.pending_release@[m - n].packet_id == a3[m]); assert(has_rel(o2.pending_release@, a3[m])); }
+        }
+    }
+}
+
+/// the first entry with a freshly allocated id is the one just pushed
+pub proof fn lemma_len_of_new(o4: Outbound, o3: Outbound, id: u16, offset: usize, len: usize)
+    requires o4.retained@ == o3.retained@.push(RetainedPacket { packet_id: id, offset, len, state: SendState::Write { written: 0 } }),
+        !has_ret(o3.retained@, id),
+    ensures first_ret(o4.retained@, id) == o3.retained@.len(), o4.retained@[first_ret(o4.retained@, id)].len == len
+{
+    let n = o3.retained@.len() as int;
+    assert forall|j: int| 0 <= j < n implies (#[trigger] o4.retained@[j]).packet_id != id by {
+        assert(o4.retained@[j] == o3.retained@[j]);
+    }
+    lemma_first_ret(o4.retained@, id, n);
+}
+
 impl<'a, 'buf> Connection<'a, 'buf> {
 fn require_retained_slot(&self) -> (r: Result<(), Error<IoErr>>)
     ensures
@@ -5081,6 +5231,170 @@ async fn disconnect(&mut self) -> (r: Result<(), Error<IoErr>>)
 
 
         self.disconnect_with(Disconnect::success()).await
+    }
+
+async fn subscribe(
+        &mut self,
+        topics: &[TopicFilter<'_>],
+        properties: &[Property<'_>],
+    ) -> (r: Result<Op, Error<IoErr>>)
+    requires
+        conn_inv(*old(self)),
+    ensures
+        !old(self).live ==> r == Err::<Op, Error<IoErr>>(Error::Disconnected) && final(self).io == old(self).io && *final(self).session == *old(self).session,
+        final(self).live ==> old(self).live,
+        r matches Err(e) ==> (e is Transport || e is Disconnected) ==> !final(self).live,
+        (old(self).live && (topics@.len() == 0 || !props_valid(Properties { inner: PropertiesData::Slice(properties) }, PropertyContext::Subscribe))) ==>
+            r == Err::<Op, Error<IoErr>>(Error::InvalidRequest) && final(self).io == old(self).io && *final(self).session == *old(self).session && final(self).live,
+        r matches Err(e) ==> e is InvalidRequest ==>
+            same_inflight(cs(*final(self)).data.outbound, cs(*old(self)).data.outbound) && final(self).live == old(self).live,
+        ret_sig(cs(*final(self)).data.outbound.retained@) == ret_sig(cs(*old(self)).data.outbound.retained@)
+            || (ret_sig(cs(*final(self)).data.outbound.retained@).len() == ret_sig(cs(*old(self)).data.outbound.retained@).len() + 1
+                && ret_sig(cs(*final(self)).data.outbound.retained@).drop_last() == ret_sig(cs(*old(self)).data.outbound.retained@)),
+        r matches Ok(op) ==> !too_large(cs(*final(self)).runtime.maximum_packet_size,
+            cs(*final(self)).data.outbound.retained@[first_ret(cs(*final(self)).data.outbound.retained@, op.packet_id)].len),
+        r matches Ok(op) ==> op.kind == OpKind::Subscribe && op.packet_id != 0 && op.generation == cs(*final(self)).data.generation && final(self).live
+            && has_ret(cs(*final(self)).data.outbound.retained@, op.packet_id)
+            && !in_use(cs(*old(self)).data.outbound, op.packet_id),
+        cs(*final(self)).runtime.send_quota == cs(*old(self)).runtime.send_quota,
+        sd_frame_gen(cs(*final(self)).data, cs(*old(self)).data),
+        final(self).event == old(self).event,
+        cs(*final(self)).data.pending_server_packet_ids@ == cs(*old(self)).data.pending_server_packet_ids@,
+        conn_inv(*final(self)),
+{
+        if !self.live {
+            return Err(Error::Disconnected);
+        }
+        if topics.is_empty() {
+            return Err(Error::InvalidRequest);
+        }
+        if !Properties::from_slice(properties).valid_for(PropertyContext::Subscribe) {
+            return Err(Error::InvalidRequest);
+        }
+        (match self.flush_outbound().await { Ok(__v) => __v, Err(__e) => return Err(From::from(__e)) });
+        let ghost o1 = cs(*self).data.outbound;
+
+        (match self.require_retained_slot() { Ok(__v) => __v, Err(__e) => return Err(From::from(__e)) });
+
+        let packet_id = self.session.data.next_packet_id();
+        let ghost o2 = cs(*self).data.outbound;
+
+        let (offset, len) = (match self.session.data.outbound.encode_packet(&Subscribe {
+            packet_id,
+            dup: false,
+            properties: Properties::from_slice(properties),
+            topics,
+        }) { Ok(__v) => __v, Err(__e) => return Err(From::from(__e)) });
+        let ghost o3 = cs(*self).data.outbound;
+        proof { lemma_inflight_entries(o3, o2); }
+
+        (match self.session.runtime.require_packet_size(len) { Ok(__v) => __v, Err(__e) => return Err(From::from(__e)) });
+        (match self.session
+            .data
+            .outbound
+            .retain_packet(packet_id, offset, len) { Ok(__v) => __v, Err(__e) => return Err(From::from(__e)) });
+        let ghost o4 = cs(*self).data.outbound;
+        proof {
+            lemma_retained_pushed(o4, o3, o2, packet_id, offset, len);
+            lemma_sig_props(o2, cs(*old(self)).data.outbound, packet_id);
+            assert(ret_sig(o4.retained@).drop_last() =~= ret_sig(o3.retained@));
+            lemma_first_ret_bounds(o4.retained@, packet_id);
+        }
+
+        (match self.flush_outbound().await { Ok(__v) => __v, Err(__e) => return Err(From::from(__e)) });
+        proof {
+            lemma_sig_props(cs(*self).data.outbound, o4, packet_id);
+            lemma_first_ret_bounds(o4.retained@, packet_id);
+            lemma_len_of_new(o4, o3, packet_id, offset, len);
+        }
+
+        Ok(Op::new(
+            OpKind::Subscribe,
+            packet_id,
+            self.session.data.generation(),
+        ))
+    }
+
+async fn unsubscribe(
+        &mut self,
+        topics: &[&str],
+        properties: &[Property<'_>],
+    ) -> (r: Result<Op, Error<IoErr>>)
+    requires
+        conn_inv(*old(self)),
+    ensures
+        !old(self).live ==> r == Err::<Op, Error<IoErr>>(Error::Disconnected) && final(self).io == old(self).io && *final(self).session == *old(self).session,
+        final(self).live ==> old(self).live,
+        r matches Err(e) ==> (e is Transport || e is Disconnected) ==> !final(self).live,
+        (old(self).live && (topics@.len() == 0 || !props_valid(Properties { inner: PropertiesData::Slice(properties) }, PropertyContext::Unsubscribe))) ==>
+            r == Err::<Op, Error<IoErr>>(Error::InvalidRequest) && final(self).io == old(self).io && *final(self).session == *old(self).session && final(self).live,
+        r matches Err(e) ==> e is InvalidRequest ==>
+            same_inflight(cs(*final(self)).data.outbound, cs(*old(self)).data.outbound) && final(self).live == old(self).live,
+        ret_sig(cs(*final(self)).data.outbound.retained@) == ret_sig(cs(*old(self)).data.outbound.retained@)
+            || (ret_sig(cs(*final(self)).data.outbound.retained@).len() == ret_sig(cs(*old(self)).data.outbound.retained@).len() + 1
+                && ret_sig(cs(*final(self)).data.outbound.retained@).drop_last() == ret_sig(cs(*old(self)).data.outbound.retained@)),
+        r matches Ok(op) ==> !too_large(cs(*final(self)).runtime.maximum_packet_size,
+            cs(*final(self)).data.outbound.retained@[first_ret(cs(*final(self)).data.outbound.retained@, op.packet_id)].len),
+        r matches Ok(op) ==> op.kind == OpKind::Unsubscribe && op.packet_id != 0 && op.generation == cs(*final(self)).data.generation && final(self).live
+            && has_ret(cs(*final(self)).data.outbound.retained@, op.packet_id)
+            && !in_use(cs(*old(self)).data.outbound, op.packet_id),
+        cs(*final(self)).runtime.send_quota == cs(*old(self)).runtime.send_quota,
+        sd_frame_gen(cs(*final(self)).data, cs(*old(self)).data),
+        final(self).event == old(self).event,
+        cs(*final(self)).data.pending_server_packet_ids@ == cs(*old(self)).data.pending_server_packet_ids@,
+        conn_inv(*final(self)),
+{
+        if !self.live {
+            return Err(Error::Disconnected);
+        }
+        if topics.is_empty() {
+            return Err(Error::InvalidRequest);
+        }
+        if !Properties::from_slice(properties).valid_for(PropertyContext::Unsubscribe) {
+            return Err(Error::InvalidRequest);
+        }
+        (match self.flush_outbound().await { Ok(__v) => __v, Err(__e) => return Err(From::from(__e)) });
+        let ghost o1 = cs(*self).data.outbound;
+
+        (match self.require_retained_slot() { Ok(__v) => __v, Err(__e) => return Err(From::from(__e)) });
+
+        let packet_id = self.session.data.next_packet_id();
+        let ghost o2 = cs(*self).data.outbound;
+
+        let (offset, len) = (match self.session.data.outbound.encode_packet(&Unsubscribe {
+            packet_id,
+            dup: false,
+            properties: Properties::from_slice(properties),
+            topics,
+        }) { Ok(__v) => __v, Err(__e) => return Err(From::from(__e)) });
+        let ghost o3 = cs(*self).data.outbound;
+        proof { lemma_inflight_entries(o3, o2); }
+
+        (match self.session.runtime.require_packet_size(len) { Ok(__v) => __v, Err(__e) => return Err(From::from(__e)) });
+        (match self.session
+            .data
+            .outbound
+            .retain_packet(packet_id, offset, len) { Ok(__v) => __v, Err(__e) => return Err(From::from(__e)) });
+        let ghost o4 = cs(*self).data.outbound;
+        proof {
+            lemma_retained_pushed(o4, o3, o2, packet_id, offset, len);
+            lemma_sig_props(o2, cs(*old(self)).data.outbound, packet_id);
+            assert(ret_sig(o4.retained@).drop_last() =~= ret_sig(o3.retained@));
+            lemma_first_ret_bounds(o4.retained@, packet_id);
+        }
+
+        (match self.flush_outbound().await { Ok(__v) => __v, Err(__e) => return Err(From::from(__e)) });
+        proof {
+            lemma_sig_props(cs(*self).data.outbound, o4, packet_id);
+            lemma_first_ret_bounds(o4.retained@, packet_id);
+            lemma_len_of_new(o4, o3, packet_id, offset, len);
+        }
+
+        Ok(Op::new(
+            OpKind::Unsubscribe,
+            packet_id,
+            self.session.data.generation(),
+        ))
     }
 }
 
